@@ -34,6 +34,10 @@ SEMANTIC_ASSUMPTIONS = [
     "contract test such fields with `is None` only",
     "floats are not modelled; re.findall is uninterpreted; exception classes of /repo take their base from the class statement",
     "z3 runs on queries over sequences are separate processes with a hard time limit",
+    "contracts on a part of a body (segment / dropped statements, named per function in functions_under_contract) assume that "
+    "the statements left out only affect what they name (the repeated or map field they fill, lazily decoded AuxData cells)",
+    "map rule for `rep.extend(callee(e) for e in S)`: sound for callees whose contract is allocate-only (flag alloc_only, set by "
+    "inspection: frame = objects that did not exist before, postconditions speak about the new messages in terms of the pre-state)",
 ]
 
 
